@@ -424,10 +424,13 @@ func Contention(r *rand.Rand) *Doc {
 // Thread prints threadz documents.
 func Thread(r *rand.Rand) *Doc {
 	var sb strings.Builder
-	if r.Intn(3) == 0 {
-		sb.WriteString("\n# c\n")
+	// the "--- threadz N ---" banner is optional: a document may start with the first thread
+	if r.Intn(4) > 0 {
+		if r.Intn(3) == 0 {
+			sb.WriteString("\n# c\n")
+		}
+		sb.WriteString("--- threadz 1 ---\n\n")
 	}
-	sb.WriteString("--- threadz 1 ---\n\n")
 	type th struct {
 		addrs []uint64
 		same  bool
